@@ -103,6 +103,19 @@ def run(ctx):
     bt = threading.Thread(target=lambda: built.update(r=build_tools(ctx)))
     bt.start()
 
+    # history stream: in-package test driver over the real resolvers and the real IPIP / VXLAN / no-encap managers
+    hist = {}
+    hist_out = os.path.join(ctx.build, "hist.jsonl")
+    if os.path.exists(hist_out):
+        os.remove(hist_out)
+
+    def _hist():
+        ok_h, out_h = vlib.go_test(ctx, "./felix/dataplane/linux/", "TestVerifC28History", timeout=2400,
+                                   env={"VERIF_C28_OUT": hist_out, "VERIF_SEED": str(ctx.seed), "VERIF_N": "3" if ctx.tier == "quick" else "40"})
+        hist.update(ok=ok_h, out=out_h)
+    ht = threading.Thread(target=_hist)
+    ht.start()
+
     ctx.log("building Coq development")
     ok, log = vlib.coq_build(["theories/Common/CaseLib.vo"] + vlib.prop_targets(PROP))
     forb = vlib.scan_forbidden([PROP]) + scan_gen_forbidden()
@@ -213,7 +226,39 @@ def run(ctx):
             rp = vlib.write_replay(ctx, "proof", dict(kind="proof-broken", unchecked=proof_broken, searched_cases=len(cases)))
         violations.append((rp, "no-failing-input-found"))
 
-    cov = coverage(dict(evaluations=len(cases), distinct_nontrivial=len(nontrivial), distinct=len(keys),
+    # ---- history stream
+    ht.join()
+    hcases, hfail = [], []
+    if not hist.get("ok") or not os.path.exists(hist_out):
+        rp = vlib.write_replay(ctx, "history-driver", dict(kind="driver-build-failure", log=(hist.get("out") or "")[-6000:],
+                               unchecked="history stream C28: the in-package driver zz_verif_c28_test.go did not build / run against the tree"))
+        violations.append((rp, "no-failing-input-found"))
+    else:
+        hcases = [json.loads(l) for l in open(hist_out) if l.strip().startswith("{")]
+        if gen_ok:
+            himports, hchecker = ["From Verif.C28 Require Import Model Spec Hist.", "From VerifGen Require Import Gen."], "(check_hist G)"
+        else:
+            himports, hchecker = ["From Verif.C28 Require Import Model Spec Hist."], "(fun c => (true, hist_ok c))"
+        hfail, _ = vlib.coq_eval_cases(ctx, himports, hchecker, [c["coq"] for c in hcases], shard=4, extra_q=q, par=14)
+        ctx.log("histories: %d, failing: %d" % (len(hcases), len(hfail)))
+        h_or = [(i, a, o) for (i, a, o) in hfail if not o]
+        h_dis = [(i, a, o) for (i, a, o) in hfail if o and not a]
+        if h_or:
+            c = hcases[h_or[0][0]]
+            rp = vlib.write_replay(ctx, "history-" + hashlib.sha1(c["key"].encode()).hexdigest()[:10], dict(
+                kind="oracle-failure", stream="history", case=c, n_failing_histories=len(h_or), model_agrees=h_or[0][1],
+                note="after some operation of this history (pool mode changed / pool deleted / block added or released, Felix not restarted because its "
+                     "Encapsulation flags did not change) a pool's block is held for programming by a Felix manager although the static assignment for the "
+                     "pool's CURRENT mode gives it to BIRD (or to another manager), or is held by nobody although Felix owns it (Hist.hist_ok)"))
+            violations.append((rp, ""))
+        elif h_dis and not violations:
+            c = hcases[h_dis[0][0]]
+            rp = vlib.write_replay(ctx, "history-correspondence", dict(kind="correspondence-broken", stream="history", first_case=c, n_disagreements=len(h_dis),
+                                   unchecked="history stream C28: the route-manager model (Hist.run) / the translated manager conditions and the real managers disagree"))
+            violations.append((rp, "no-failing-input-found"))
+
+    cov = coverage(dict(evaluations=len(cases) + len(hcases), distinct_nontrivial=len(nontrivial) + len(hcases), distinct=len(keys) + len(hcases),
+                        histories=len(hcases), history_steps=sum(len(c.get("sample", {}).get("ops", [])) for c in hcases), history_failures=len(hfail),
                         samples=[c.get("sample") for c in cases[:3]], traces_validated_against_impl=len(cases),
                         disagreements_model_vs_impl=len(disagree), oracle_failures=len(oracle_fail),
                         input_distribution=vlib.distribution(lines)))
